@@ -16,6 +16,8 @@ def configs(tier, seed):
 
 
 def run(ctx, cfg):
+    if cfg.get("mode") == "tplus":
+        return c05.run_tplus(ctx, cfg)
     ref = TreeRef(index=False, growth=True)
     algo, dom, rs, lp = drive(ctx, cfg, [ref], last_point=False)
     if cfg.get("twin"):
